@@ -34,6 +34,7 @@ package rib
 //@ ensures[gate-kept] gateInv(r)
 //@ requires[own-instance] ni == op.GetNetworkInstance()
 //@ ensures[fatal] result2 != nil ==> len(result0) == 0 && len(result1) == 0
+//@ ensures[fatal-only-if] result2 != nil ==> ni == "" || !(ni in old(dom(r.niRIB))) || !opSupported(op)
 //@ ensures[wf] resultsWF(result0) && resultsWF(result1)
 //@ ensures[rib-wf] holdersWF(r) && pendingWF(r) && holdersNonNil(r)
 //@ ensures[ids-known] newIDsKnown(result0, 0, op.GetId(), old(dom(r.pendingEntries))) && newIDsKnown(result1, 0, op.GetId(), old(dom(r.pendingEntries)))
@@ -314,9 +315,12 @@ package rib
 //@ props C02 C06 C11:lock C12:safety
 
 // ---- BEGIN Get (C07), generated by /verif/tools/gen_get_contracts.py ----
+// convFailed: whether the latest struct -> proto conversion reported an error (ghost record of protoFromGoStruct's verdict)
+//@ ghostvar convFailed Bool
 //@ unit protoFromGoStruct
 //@ trusted the ygot struct -> gNMI notifications -> proto pipeline (ygot.TogNMINotifications, protomap.ProtoFromPaths) is reflection over generated schemas and outside the verifier's reach; it writes only into pb, which every caller allocates immediately before the call and whose content no contract refers to (entry payload is abstract: field-for-field payload fidelity is NOT decided)
-//@ assigns nothing
+//@ ensures[verdict-recorded] convFailed <==> result0 != nil
+//@ assigns convFailed
 
 //@ pred keyed_v4(E *aft.Afts_Ipv4Entry, k string) = E != nil && E.Prefix != nil && *E.Prefix == k
 //@ pred keyed_v6(E *aft.Afts_Ipv6Entry, k string) = E != nil && E.Prefix != nil && *E.Prefix == k
@@ -347,14 +351,16 @@ package rib
 //@ requires e != nil && e.Prefix != nil
 //@ ensures[key] result1 == nil ==> result0 != nil && fresh(result0) && result0.Prefix == *e.Prefix && result0.Ipv4Entry != nil
 //@ ensures[err] result1 != nil ==> result0 == nil
-//@ assigns nothing
+//@ ensures[fails-only-when-conversion-fails] result1 != nil <==> convFailed
+//@ assigns convFailed
 //@ props C07 C12:safety
 
 //@ unit ConcreteIPv6Proto
 //@ requires e != nil && e.Prefix != nil
 //@ ensures[key] result1 == nil ==> result0 != nil && fresh(result0) && result0.Prefix == *e.Prefix && result0.Ipv6Entry != nil
 //@ ensures[err] result1 != nil ==> result0 == nil
-//@ assigns nothing
+//@ ensures[fails-only-when-conversion-fails] result1 != nil <==> convFailed
+//@ assigns convFailed
 //@ props C07 C12:safety
 
 //@ unit ConcreteMPLSProto
@@ -362,21 +368,24 @@ package rib
 //@ ensures[key] result1 == nil ==> result0 != nil && fresh(result0) && istype(e.Label, aft.UnionUint32) && e.Label == boxed(aft.UnionUint32, result0.GetLabelUint64()) && result0.LabelEntry != nil && tagof(result0.Label) != 0 && payload(result0.Label) != 0
 //@ ensures[ok-when-uint32] istype(e.Label, aft.UnionUint32) ==> true
 //@ ensures[err] result1 != nil ==> result0 == nil
-//@ assigns nothing
+//@ ensures[fails-only-when-conversion-fails] result1 != nil <==> (convFailed || !istype(e.Label, aft.UnionUint32))
+//@ assigns convFailed
 //@ props C07 C12:safety
 
 //@ unit ConcreteNextHopGroupProto
 //@ requires e != nil && e.Id != nil
 //@ ensures[key] result1 == nil ==> result0 != nil && fresh(result0) && result0.Id == *e.Id && result0.NextHopGroup != nil
 //@ ensures[err] result1 != nil ==> result0 == nil
-//@ assigns nothing
+//@ ensures[fails-only-when-conversion-fails] result1 != nil <==> convFailed
+//@ assigns convFailed
 //@ props C07 C12:safety
 
 //@ unit ConcreteNextHopProto
 //@ requires e != nil && e.Index != nil
 //@ ensures[key] result1 == nil ==> result0 != nil && fresh(result0) && result0.Index == *e.Index && result0.NextHop != nil
 //@ ensures[err] result1 != nil ==> result0 == nil
-//@ assigns nothing
+//@ ensures[fails-only-when-conversion-fails] result1 != nil <==> convFailed
+//@ assigns convFailed
 //@ props C07 C12:safety
 
 // Ghost witnesses: getpos_T maps the key of an entry of table T to the position in sent(msgCh) of
@@ -479,7 +488,7 @@ package rib
 //@ assert at "if filter[spb.AFTType_NEXTHOP] {" [lemma-done-v6-before-nh] (old(filter[spb.AFTType_ALL]) || old(filter[spb.AFTType_IPV6])) ==> forall k in dom(r.r.Afts.Ipv6Entry) :: old(len(sent(msgCh))) <= getpos_v6[k] && getpos_v6[k] < len(sent(msgCh)) && msg_v6(sent(msgCh)[getpos_v6[k]], r.name) && key_v6(sent(msgCh)[getpos_v6[k]]) == k
 //@ assert at "if filter[spb.AFTType_NEXTHOP] {" [lemma-done-mpls-before-nh] (old(filter[spb.AFTType_ALL]) || old(filter[spb.AFTType_MPLS])) ==> forall k in dom(r.r.Afts.LabelEntry) :: old(len(sent(msgCh))) <= getpos_mpls[k] && getpos_mpls[k] < len(sent(msgCh)) && msg_mpls(sent(msgCh)[getpos_mpls[k]], r.name) && key_mpls(sent(msgCh)[getpos_mpls[k]]) == k
 //@ assert at "if filter[spb.AFTType_NEXTHOP] {" [lemma-done-nhg-before-nh] (old(filter[spb.AFTType_ALL]) || old(filter[spb.AFTType_NEXTHOP_GROUP])) ==> forall k in dom(r.r.Afts.NextHopGroup) :: old(len(sent(msgCh))) <= getpos_nhg[k] && getpos_nhg[k] < len(sent(msgCh)) && msg_nhg(sent(msgCh)[getpos_nhg[k]], r.name) && key_nhg(sent(msgCh)[getpos_nhg[k]]) == k
-//@ assigns sent(msgCh), recvd(stopCh), getpos_v4, getpos_v6, getpos_mpls, getpos_nhg, getpos_nh
+//@ assigns convFailed, sent(msgCh), recvd(stopCh), getpos_v4, getpos_v6, getpos_mpls, getpos_nhg, getpos_nh
 //@ props C07 C11:lock C12:safety
 // ---- END Get (C07) ----
 // ---- generated by /verif/tools/gen_rib_contracts.py (five AFT tables, one shape) ----
@@ -614,6 +623,8 @@ package rib
 //@ pred fromProto_nhg(E *aft.Afts_NextHopGroup, p *aftpb.Afts_NextHopGroupKey) = E.GetId() == p.GetId() && (forall i: uint64 :: i in dom(E.NextHop) <==> (exists j in 0..len(p.GetNextHopGroup().GetNextHop()) :: p.GetNextHopGroup().GetNextHop()[j].GetIndex() == i)) && E.GetBackupNextHopGroup() == p.GetNextHopGroup().GetBackupNextHopGroup().GetValue() && ((E.BackupNextHopGroup == nil) <==> (p.GetNextHopGroup().GetBackupNextHopGroup() == nil))
 //@ pred fromProto_nh(E *aft.Afts_NextHop, p *aftpb.Afts_NextHopKey) = E.GetIndex() == p.GetIndex()
 
+// candFailed: whether the latest candidate construction (proto -> ygot struct, with validation) reported an error
+//@ ghostvar candFailed Bool
 //@ unit candidateRIB
 //@ trusted the proto -> gNMI paths -> ygot struct pipeline (protomap.PathsFromProto, ytypes.SetNode, Validate) is reflection over generated schemas and outside the verifier's reach; its key and reference fields are assumed to equal the proto's
 //@ recovers protomap/ytypes panic on some malformed messages (e.g. an enum field holding an undefined number, protomap.parseField); the deferred recover turns that into the error result, so malformed content is answered FAILED instead of taking the server down (C12)
@@ -635,7 +646,8 @@ package rib
 //@ ensures[nh] result1 == nil && len(a.NextHop) == 1 && a.NextHop[0] != nil && len(a.Ipv4Entry) == 0 && len(a.Ipv6Entry) == 0 && len(a.LabelEntry) == 0 && len(a.NextHopGroup) == 0 ==> candOnly_nh(result0.Afts, a.NextHop[0].GetIndex())
 //@   && fresh(result0.Afts.NextHop[a.NextHop[0].GetIndex()]) && fromProto_nh(result0.Afts.NextHop[a.NextHop[0].GetIndex()], a.NextHop[0]) && keyed_nh(result0.Afts.NextHop[a.NextHop[0].GetIndex()], a.NextHop[0].GetIndex())
 //@ ensures[cand-wf] result1 == nil && len(a.MacEntry) == 0 && len(a.PolicyForwardingEntry) == 0 ==> candWF(result0.Afts)
-//@ assigns nothing
+//@ ensures[verdict-recorded] candFailed <==> result1 != nil
+//@ assigns candFailed
 //@ props C01 C02 C07
 
 //@ unit RIBHolder.AddIPv4
@@ -651,6 +663,7 @@ package rib
 //@ ensures[hook] result0 ==> hookCount == old(hookCount) + ite(old(r.postChangeHook) != nil, 1, 0)
 //@ ensures[installed-only-if-approved] result0 && r.checkFn != nil ==> approvedBy(old(gateCalls), gateCalls, constants.Add)
 //@ ensures[installed-only-if-resolvable] result0 && r.checkFn != nil && r.name != "" ==> entryResolvable(gateRIB(r), r, r.r.Afts.Ipv4Entry[e.GetPrefix()].GetNextHopGroupNetworkInstance(), r.r.Afts.Ipv4Entry[e.GetPrefix()].GetNextHopGroup())
+//@ ensures[installs-when-approved] e != nil && !candFailed && (!explicitReplace || e.GetPrefix() in old(dom(r.r.Afts.Ipv4Entry))) && (r.checkFn == nil || approvedBy(old(gateCalls), gateCalls, constants.Add)) ==> result0 && result2 == nil
 //@ ensures[held-only-if-refused] !result0 && result2 == nil ==> r.checkFn != nil && gateCalls == old(gateCalls) + 1 && gateOp == constants.Add && !gateOK && !gateFatal
 //@ ensures[ungated] r.checkFn == nil ==> gateCalls == old(gateCalls)
 //@ ensures[one-gate-call] gateCalls <= old(gateCalls) + 1
@@ -659,7 +672,7 @@ package rib
 //@ loop 1 invariant (forall j in visited :: j == e.GetPrefix()) && hookCount == old(hookCount) + ite(e.GetPrefix() in visited, 1, 0)
 //@ loop 1 invariant e != nil && holderWF(r) && e.GetPrefix() in dom(r.r.Afts.Ipv4Entry) && r.r.Afts.Ipv4Entry[e.GetPrefix()] != nil && fresh(r.r.Afts.Ipv4Entry[e.GetPrefix()]) && othersKept_v4(r.r.Afts, e.GetPrefix())
 //@ loop 1 invariant fromProto_v4(r.r.Afts.Ipv4Entry[e.GetPrefix()], e) && candOnly_v4(nr.Afts, e.GetPrefix()) && nr != nil && nr.Afts != nil && r.postChangeHook != nil
-//@ assigns r.r.Afts.Ipv4Entry, contents(r.r.Afts.Ipv4Entry), hookCount, gateCalls, gateOp, gateCand, gateOK, gateFatal
+//@ assigns r.r.Afts.Ipv4Entry, contents(r.r.Afts.Ipv4Entry), hookCount, candFailed, gateCalls, gateOp, gateCand, gateOK, gateFatal
 //@ props C01 C02 C16 C12:safety C12:ensures#nil C12:ensures#err-not-installed C12:ensures#no-trace
 
 //@ unit RIBHolder.AddIPv6
@@ -675,6 +688,7 @@ package rib
 //@ ensures[hook] result0 ==> hookCount == old(hookCount) + ite(old(r.postChangeHook) != nil, 1, 0)
 //@ ensures[installed-only-if-approved] result0 && r.checkFn != nil ==> approvedBy(old(gateCalls), gateCalls, constants.Add)
 //@ ensures[installed-only-if-resolvable] result0 && r.checkFn != nil && r.name != "" ==> entryResolvable(gateRIB(r), r, r.r.Afts.Ipv6Entry[e.GetPrefix()].GetNextHopGroupNetworkInstance(), r.r.Afts.Ipv6Entry[e.GetPrefix()].GetNextHopGroup())
+//@ ensures[installs-when-approved] e != nil && !candFailed && (!explicitReplace || e.GetPrefix() in old(dom(r.r.Afts.Ipv6Entry))) && (r.checkFn == nil || approvedBy(old(gateCalls), gateCalls, constants.Add)) ==> result0 && result2 == nil
 //@ ensures[held-only-if-refused] !result0 && result2 == nil ==> r.checkFn != nil && gateCalls == old(gateCalls) + 1 && gateOp == constants.Add && !gateOK && !gateFatal
 //@ ensures[ungated] r.checkFn == nil ==> gateCalls == old(gateCalls)
 //@ ensures[one-gate-call] gateCalls <= old(gateCalls) + 1
@@ -683,7 +697,7 @@ package rib
 //@ loop 1 invariant (forall j in visited :: j == e.GetPrefix()) && hookCount == old(hookCount) + ite(e.GetPrefix() in visited, 1, 0)
 //@ loop 1 invariant e != nil && holderWF(r) && e.GetPrefix() in dom(r.r.Afts.Ipv6Entry) && r.r.Afts.Ipv6Entry[e.GetPrefix()] != nil && fresh(r.r.Afts.Ipv6Entry[e.GetPrefix()]) && othersKept_v6(r.r.Afts, e.GetPrefix())
 //@ loop 1 invariant fromProto_v6(r.r.Afts.Ipv6Entry[e.GetPrefix()], e) && candOnly_v6(nr.Afts, e.GetPrefix()) && nr != nil && nr.Afts != nil && r.postChangeHook != nil
-//@ assigns r.r.Afts.Ipv6Entry, contents(r.r.Afts.Ipv6Entry), hookCount, gateCalls, gateOp, gateCand, gateOK, gateFatal
+//@ assigns r.r.Afts.Ipv6Entry, contents(r.r.Afts.Ipv6Entry), hookCount, candFailed, gateCalls, gateOp, gateCand, gateOK, gateFatal
 //@ props C01 C02 C16 C12:safety C12:ensures#nil C12:ensures#err-not-installed C12:ensures#no-trace
 
 //@ unit RIBHolder.AddMPLS
@@ -700,6 +714,7 @@ package rib
 //@ ensures[hook] result0 ==> hookCount == old(hookCount) + ite(old(r.postChangeHook) != nil, 1, 0)
 //@ ensures[installed-only-if-approved] result0 && r.checkFn != nil ==> approvedBy(old(gateCalls), gateCalls, constants.Add)
 //@ ensures[installed-only-if-resolvable] result0 && r.checkFn != nil && r.name != "" ==> entryResolvable(gateRIB(r), r, r.r.Afts.LabelEntry[boxed(aft.UnionUint32, e.GetLabelUint64())].GetNextHopGroupNetworkInstance(), r.r.Afts.LabelEntry[boxed(aft.UnionUint32, e.GetLabelUint64())].GetNextHopGroup())
+//@ ensures[installs-when-approved] e != nil && !candFailed && (!explicitReplace || boxed(aft.UnionUint32, e.GetLabelUint64()) in old(dom(r.r.Afts.LabelEntry))) && (r.checkFn == nil || approvedBy(old(gateCalls), gateCalls, constants.Add)) ==> result0 && result2 == nil
 //@ ensures[held-only-if-refused] !result0 && result2 == nil ==> r.checkFn != nil && gateCalls == old(gateCalls) + 1 && gateOp == constants.Add && !gateOK && !gateFatal
 //@ ensures[ungated] r.checkFn == nil ==> gateCalls == old(gateCalls)
 //@ ensures[one-gate-call] gateCalls <= old(gateCalls) + 1
@@ -708,7 +723,7 @@ package rib
 //@ loop 1 invariant (forall j in visited :: j == boxed(aft.UnionUint32, e.GetLabelUint64())) && hookCount == old(hookCount) + ite(boxed(aft.UnionUint32, e.GetLabelUint64()) in visited, 1, 0)
 //@ loop 1 invariant e != nil && holderWF(r) && boxed(aft.UnionUint32, e.GetLabelUint64()) in dom(r.r.Afts.LabelEntry) && r.r.Afts.LabelEntry[boxed(aft.UnionUint32, e.GetLabelUint64())] != nil && fresh(r.r.Afts.LabelEntry[boxed(aft.UnionUint32, e.GetLabelUint64())]) && othersKept_mpls(r.r.Afts, boxed(aft.UnionUint32, e.GetLabelUint64()))
 //@ loop 1 invariant fromProto_mpls(r.r.Afts.LabelEntry[boxed(aft.UnionUint32, e.GetLabelUint64())], e) && candOnly_mpls(nr.Afts, boxed(aft.UnionUint32, e.GetLabelUint64())) && nr != nil && nr.Afts != nil && r.postChangeHook != nil
-//@ assigns r.r.Afts.LabelEntry, contents(r.r.Afts.LabelEntry), hookCount, gateCalls, gateOp, gateCand, gateOK, gateFatal
+//@ assigns r.r.Afts.LabelEntry, contents(r.r.Afts.LabelEntry), hookCount, candFailed, gateCalls, gateOp, gateCand, gateOK, gateFatal
 //@ props C01 C02 C16 C12:safety C12:ensures#nil C12:ensures#err-not-installed C12:ensures#no-trace
 
 //@ unit RIBHolder.AddNextHopGroup
@@ -724,6 +739,7 @@ package rib
 //@ ensures[hook] result0 ==> hookCount == old(hookCount) + ite(old(r.postChangeHook) != nil, 1, 0)
 //@ ensures[installed-only-if-approved] result0 && r.checkFn != nil ==> approvedBy(old(gateCalls), gateCalls, constants.Add)
 //@ ensures[installed-only-if-resolvable] result0 && r.checkFn != nil && r.name != "" ==> groupResolvable(r, r.r.Afts.NextHopGroup[e.GetId()])
+//@ ensures[installs-when-approved] e != nil && !candFailed && (!explicitReplace || e.GetId() in old(dom(r.r.Afts.NextHopGroup))) && (r.checkFn == nil || approvedBy(old(gateCalls), gateCalls, constants.Add)) ==> result0 && result2 == nil
 //@ ensures[held-only-if-refused] !result0 && result2 == nil ==> r.checkFn != nil && gateCalls == old(gateCalls) + 1 && gateOp == constants.Add && !gateOK && !gateFatal
 //@ ensures[ungated] r.checkFn == nil ==> gateCalls == old(gateCalls)
 //@ ensures[one-gate-call] gateCalls <= old(gateCalls) + 1
@@ -735,7 +751,7 @@ package rib
 //@ loop 1 invariant groupWF(nr.Afts.NextHopGroup[e.GetId()])
 //@ loop 1 invariant r.checkFn != nil && r.name != "" ==> groupResolvable(r, r.r.Afts.NextHopGroup[e.GetId()])
 //@ assert at "r.doAddNHG(" [lemma-candidate-resolvable] r.checkFn != nil && r.name != "" ==> groupResolvable(r, nr.Afts.NextHopGroup[e.GetId()])
-//@ assigns r.r.Afts.NextHopGroup, contents(r.r.Afts.NextHopGroup), hookCount, gateCalls, gateOp, gateCand, gateOK, gateFatal
+//@ assigns r.r.Afts.NextHopGroup, contents(r.r.Afts.NextHopGroup), hookCount, candFailed, gateCalls, gateOp, gateCand, gateOK, gateFatal
 //@ props C01 C02 C16 C12:safety C12:ensures#nil C12:ensures#err-not-installed C12:ensures#no-trace
 
 //@ unit RIBHolder.AddNextHop
@@ -750,6 +766,7 @@ package rib
 //@ ensures[explicit-replace] explicitReplace && e != nil && !(e.GetIndex() in old(dom(r.r.Afts.NextHop))) ==> !result0 && result2 != nil
 //@ ensures[hook] result0 ==> hookCount == old(hookCount) + ite(old(r.postChangeHook) != nil, 1, 0)
 //@ ensures[installed-only-if-approved] result0 && r.checkFn != nil ==> approvedBy(old(gateCalls), gateCalls, constants.Add)
+//@ ensures[installs-when-approved] e != nil && !candFailed && (!explicitReplace || e.GetIndex() in old(dom(r.r.Afts.NextHop))) && (r.checkFn == nil || approvedBy(old(gateCalls), gateCalls, constants.Add)) ==> result0 && result2 == nil
 //@ ensures[held-only-if-refused] !result0 && result2 == nil ==> r.checkFn != nil && gateCalls == old(gateCalls) + 1 && gateOp == constants.Add && !gateOK && !gateFatal
 //@ ensures[ungated] r.checkFn == nil ==> gateCalls == old(gateCalls)
 //@ ensures[one-gate-call] gateCalls <= old(gateCalls) + 1
@@ -758,7 +775,7 @@ package rib
 //@ loop 1 invariant (forall j in visited :: j == e.GetIndex()) && hookCount == old(hookCount) + ite(e.GetIndex() in visited, 1, 0)
 //@ loop 1 invariant e != nil && holderWF(r) && e.GetIndex() in dom(r.r.Afts.NextHop) && r.r.Afts.NextHop[e.GetIndex()] != nil && fresh(r.r.Afts.NextHop[e.GetIndex()]) && othersKept_nh(r.r.Afts, e.GetIndex())
 //@ loop 1 invariant fromProto_nh(r.r.Afts.NextHop[e.GetIndex()], e) && candOnly_nh(nr.Afts, e.GetIndex()) && nr != nil && nr.Afts != nil && r.postChangeHook != nil
-//@ assigns r.r.Afts.NextHop, contents(r.r.Afts.NextHop), hookCount, gateCalls, gateOp, gateCand, gateOK, gateFatal
+//@ assigns r.r.Afts.NextHop, contents(r.r.Afts.NextHop), hookCount, candFailed, gateCalls, gateOp, gateCand, gateOK, gateFatal
 //@ props C01 C02 C16 C12:safety C12:ensures#nil C12:ensures#err-not-installed C12:ensures#no-trace
 
 //@ unit RIBHolder.DeleteIPv4
@@ -1097,8 +1114,11 @@ package rib
 
 // ---- operations on the whole RIB (C01, C02, C06) ----
 //@ pred opWF(op *spb.AFTOperation) = op != nil && oneofOK(op.Entry) && (op.GetMpls() != nil ==> oneofOK(op.GetMpls().Label))
+// opSupported: the payload is of one of the five kinds the RIB programs.
+//@ pred opSupported(op *spb.AFTOperation) = istype(op.Entry, *spb.AFTOperation_Ipv4) || istype(op.Entry, *spb.AFTOperation_Ipv6) || istype(op.Entry, *spb.AFTOperation_Mpls) || istype(op.Entry, *spb.AFTOperation_NextHopGroup) || istype(op.Entry, *spb.AFTOperation_NextHop)
 //@ pred pendingWF(r *RIB) = r.pendingEntries != nil && (forall k in dom(r.pendingEntries) :: r.pendingEntries[k] != nil
-//@   && opWF(r.pendingEntries[k].op) && r.pendingEntries[k].op.GetId() == k && r.pendingEntries[k].ni == r.pendingEntries[k].op.GetNetworkInstance())
+//@   && opWF(r.pendingEntries[k].op) && r.pendingEntries[k].op.GetId() == k && r.pendingEntries[k].ni == r.pendingEntries[k].op.GetNetworkInstance()
+//@   && r.pendingEntries[k].ni != "" && r.pendingEntries[k].ni in dom(r.niRIB) && opSupported(r.pendingEntries[k].op))
 //@   && (r.disableForwardReferences ==> dom(r.pendingEntries) == emptyset(uint64))
 //@ pred newIDsNotHeld(r *RIB, rs []*OpResult, from Int) = forall i in from..len(rs) :: !(rs[i].ID in dom(r.pendingEntries))
 // opInstalled: the entry named by op is in the tables of h with the key and reference fields of op's payload.
@@ -1127,6 +1147,8 @@ package rib
 //@ ensures[wf-pending] pendingWF(r)
 //@ ensures[wf-stack] stackNotHeld(r, installStack)
 //@ ensures[fatal-unknown-ni] !(ni in old(dom(r.niRIB))) && !old(installStack[op.GetId()]) ==> result0 != nil
+//@ ensures[instances-kept] dom(r.niRIB) == old(dom(r.niRIB))
+//@ ensures[fatal-only-if] result0 != nil ==> !old(installStack[op.GetId()]) && (ni == "" || !(ni in old(dom(r.niRIB))) || !opSupported(op))
 //@ ensures[ids-known] newIDsKnown(*oks, old(len(*oks)), op.GetId(), old(dom(r.pendingEntries))) && newIDsKnown(*fails, old(len(*fails)), op.GetId(), old(dom(r.pendingEntries)))
 //@ ensures[verdict-stacked] r.disableForwardReferences || (newIDsStacked(*oks, old(len(*oks)), installStack) && newIDsStacked(*fails, old(len(*fails)), installStack))
 //@ ensures[verdict-final] newIDsNotHeld(r, *oks, old(len(*oks))) && newIDsNotHeld(r, *fails, old(len(*fails)))
@@ -1165,13 +1187,13 @@ package rib
 //@ assert at "if err != nil {" [lemma-old-stacked] r.disableForwardReferences || ((forall i in old(len(*oks))..len(oksBefore) :: installStack[(*oks)[i].ID]) && (forall i in old(len(*fails))..len(failsBefore) :: installStack[(*fails)[i].ID]))
 //@ assert at "if err != nil {" [lemma-stacked] r.disableForwardReferences || (newIDsStacked(*oks, old(len(*oks)), installStack) && newIDsStacked(*fails, old(len(*fails)), installStack))
 //@ loop 1 at "range r.getPending()" invariant prefixKept(*oks, old(*oks)) && prefixKept(*fails, old(*fails))
-//@ loop 1 invariant resultsWF(*oks) && resultsWF(*fails) && holdersWF(r) && pendingWF(r) && stackNotHeld(r, installStack) && ribQuiet(r) && gateInv(r)
+//@ loop 1 invariant resultsWF(*oks) && resultsWF(*fails) && holdersWF(r) && pendingWF(r) && stackNotHeld(r, installStack) && ribQuiet(r) && gateInv(r) && dom(r.niRIB) == old(dom(r.niRIB))
 //@ loop 1 invariant newIDsKnown(*oks, old(len(*oks)), op.GetId(), old(dom(r.pendingEntries))) && newIDsKnown(*fails, old(len(*fails)), op.GetId(), old(dom(r.pendingEntries)))
 //@ loop 1 invariant r.disableForwardReferences || (newIDsStacked(*oks, old(len(*oks)), installStack) && newIDsStacked(*fails, old(len(*fails)), installStack))
 //@ loop 1 invariant (forall k in old(dom(installStack)) :: old(installStack[k]) ==> installStack[k]) && installStack[op.GetId()]
 //@ loop 1 invariant forall k in dom(r.pendingEntries) :: k in old(dom(r.pendingEntries))
 //@ loop 1 invariant (exists i in old(len(*oks))..len(*oks) :: (*oks)[i].ID == op.GetId()) && oks != nil && fails != nil && installStack != nil && opWF(op)
-//@ loop 1 invariant forall j in 0..len(ranged) :: ranged[j] != nil && opWF(ranged[j].op) && ranged[j].op.GetId() in old(dom(r.pendingEntries)) && ranged[j].ni == ranged[j].op.GetNetworkInstance()
+//@ loop 1 invariant forall j in 0..len(ranged) :: ranged[j] != nil && opWF(ranged[j].op) && ranged[j].op.GetId() in old(dom(r.pendingEntries)) && ranged[j].ni == ranged[j].op.GetNetworkInstance() && ranged[j].ni != "" && ranged[j].ni in dom(r.niRIB) && opSupported(ranged[j].op)
 //@ loop 1 invariant[every-held-op-retried] forall j in 0..loopi :: ranged[j].op.GetId() in retried
 //@ loop 1 invariant forall k: uint64 :: old(retried)[k] ==> retried[k]
 //@ ensures[retried-monotone] forall k: uint64 :: old(retried)[k] ==> retried[k]
